@@ -101,10 +101,12 @@ def check(ctx):
     # the try body returns the probe result unchanged
     body_ret = [r for s in tries[0].body for r in ast.walk(s) if isinstance(r, ast.Return)]
     ok = len(body_ret) == 1 and isinstance(body_ret[0].value, ast.Call) and ast.unparse(body_ret[0].value.func) == 'skip_tag_length_contents' \
-        and len(body_ret[0].value.args) == 2 and ast.unparse(body_ret[0].value.args[1]) == '0'
+        and len(body_ret[0].value.args) == 2 and ast.unparse(body_ret[0].value.args[1]) == '0' \
+        and names_in(body_ret[0].value.args[0]) - {'bytearray', 'bytes', 'memoryview'} == {flow.param_names(dfl)[0]} \
+        and not any(isinstance(n, (ast.Subscript, ast.BinOp)) for n in ast.walk(body_ret[0].value.args[0]))
     ctx.instance('C15.R2', '%s returns the probe result from offset 0' % Model.qual(dfl), 'ok' if ok else 'VIOLATION', node=dfl, file=BER)
     if not ok:
-        ctx.violation('C15.R2', BER, dfl, Model.qual(dfl), 'decode_full_length does not return skip_tag_length_contents(data, 0) unchanged', stmt='probe result')
+        ctx.violation('C15.R2', BER, dfl, Model.qual(dfl), 'decode_full_length does not return skip_tag_length_contents(<the whole data>, 0) unchanged (a sliced or offset buffer makes the probe disagree with the decoder for long headers)', stmt='probe result')
     # MissingDataError class hierarchy and constructor positions
     mde = model.cls(BER, 'MissingDataError')
     oob = model.cls(BER, 'OutOfByteDataError')
@@ -338,6 +340,8 @@ MUTANTS = [
 
     return offset""", expect='C15.R3'),
 ]
+MUTANTS.append(dict(name='probe looks at the first 8 octets only', file=BER,
+                    old="return skip_tag_length_contents(bytearray(data), 0)", new="return skip_tag_length_contents(bytearray(data[:8]), 0)", expect='C15.R2'))
 REFACTORS = [
     dict(name='probe result via local', file=BER, quick=True,
          old="""    offset = skip_tag(data, offset)
